@@ -172,6 +172,21 @@ def mutants(p, rnd, per_op=4):
                 q = copy.deepcopy(p); lst = _get(q, base + lp)
                 lst.insert(j + 1, Let("zzq_after", inner["t"], V(inner["s"])))
                 emit(q, "scope", "block-local %s used after its block in %s" % (inner["s"], fn["n"]))
+        # the variable of a for loop is immutable (5.4): a set inside the body breaks the rule whatever other variables are called
+        for lp, lst in lists:
+            for j, st_ in enumerate(lst):
+                if st_["k"] in ("for", "forin") and (st_["k"] == "for" or True):
+                    q = copy.deepcopy(p); q_st = _get(q, base + lp)[j]
+                    if st_["k"] == "for":
+                        q_st["b"].insert(0, Set(st_["s"], Bin("+", V(st_["s"]), I(1))))
+                        emit(q, "immutable", "set of for-loop variable %s in %s" % (st_["s"], fn["n"]))
+        # a match arm naming a variant the union does not have
+        for lp, lst in lists:
+            for j, st_ in enumerate(lst):
+                if st_["k"] == "match" and st_["arms"]:
+                    q = copy.deepcopy(p); arm = _get(q, base + lp)[j]["arms"][-1]
+                    arm["v"] = arm["v"].split(".")[0] + ".Nosuch"
+                    emit(q, "variant", "match arm names an unknown variant in %s" % fn["n"])
         # external calls outside an unsafe context
         for lp, lst in lists:
             for j, st_ in enumerate(lst):
